@@ -476,7 +476,7 @@ def check_C04(chk):
         tests = [gen_c.gen_test(chk.rng, i, kinds, fixtures=True, fw_acts=True, poke=True) for i in range(n)]
         for t in tests:       # make the tests sensitive to leaked state
             if not t.skip and chk.rng.random() < 0.7:
-                t.body.append(chk.rng.choice([("figscheck", 7), ("call",), ("peek", 0), ("figscheck", 8)]))
+                t.body.append(chk.rng.choice([("figscheck", 7), ("call",), ("peek", 0), ("figscheck", 8), ("setparam",)]))
         perms = list(itertools.permutations(range(n)))
         chk.rng.shuffle(perms)
         perms = perms[:(4 if chk.tier == "quick" else 24)]
@@ -532,10 +532,22 @@ def check_C13(chk):
     kinds = [("pass", 3), ("fail", 3), ("skiptest", 1), ("xensure", 1), ("mixed", 4), ("empty", 1)]
     for g in range(nseq):
         root = gen_c.gen_tree(chk.rng, max_depth=chk.rng.choice([0, 1, 2]), max_tests=6, kinds=kinds, fw_acts=True, poke=False)
+        probe = g % 2 == 0
+        if g % 4 == 0:
+            # several sub-suites with tests, a nested one, and own tests: state left behind by the
+            # last test of one suite meets the first test of the next
+            mk = lambda i: gen_c.gen_test(chk.rng, i, kinds=[("pass", 2), ("fail", 2), ("mixed", 2)], fixtures=True)
+            root = L.Suite(0, children=[L.Suite(1, children=[mk(0), mk(1)]),
+                                        L.Suite(2, children=[mk(2), L.Suite(3, children=[mk(3)])]), mk(4), mk(5)])
         for s, t in root.tests():
             if not t.skip:
                 r = chk.rng.random()
-                if r < 0.5:
+                if probe:
+                    # every test first looks at the framework state, then disturbs it
+                    t.body = [chk.rng.choice([("figscheck", 7), ("figscheck", 8)]), ("call",)] + t.body + \
+                             [chk.rng.choice([("figs", 3), ("figs", 12)]), ("mode", chk.rng.choice(["loose", "learning"]))] + \
+                             ([("expect",)] if chk.rng.random() < 0.5 else [])
+                elif r < 0.5:
                     t.body.append(chk.rng.choice([("figscheck", 7), ("call",), ("figscheck", 8), ("mode", "loose"), ("figs", 3)]))
                 if r < 0.25:
                     t.body.insert(0, ("raw", "expect mocked_c"))     # a successfully mocked call of the function
@@ -673,6 +685,11 @@ def check_C08(chk):
                 chk.violation("not-in-runner", "in-process test %s ran in another process" % name, rp())
             if mode != "forked" and mr.own[name][3] > 0:
                 died_inproc = True
+            # the tally is also visible through its effect: pending expectations become failures
+            credited = dict(L.log_tdone(run)).get(name)
+            if credited is not None and credited != mr.own[name] and not corners(root, mode):
+                chk.violation("tally-effect", "test %s credited %s; with the mock tally after its teardown it yields %s" % (
+                    name, credited, mr.own[name]), rp())
         # suite fixtures bracket each sub-suite once, in the runner's process
         if mr.kind == "fin":
             pe = parent_events(run, root, ppid)
@@ -722,29 +739,31 @@ def check_C18(chk):
     chk.cov["channel"] = {"capacity_records": cap, "pipe_bytes": psz, "record_bytes": msz}
     ks = [0, 1, cap - 2, cap - 1, cap, cap + 1, 2 * cap, 3 * cap + 7]
     if chk.tier == "quick":
-        combos = [(k, res, pos, mode) for k in ks for res in (1, 0) for pos in ("middle",) for mode in ("forked",)]
-        combos += [(cap - 1, 1, "first", "forked"), (cap, 0, "last", "forked"), (cap - 1, 1, "middle", "inproc"),
-                   (cap, 1, "middle", "inproc"), (cap - 2, 0, "middle", "inproc")]
+        combos = [(k, res, "middle", "forked", res == 1 and i % 2 == 0, i % 4 < 2) for i, k in enumerate(ks) for res in (1, 0)]
+        combos += [(cap, 1, "middle", "forked", True, True), (cap - 1, 1, "last", "forked", True, True),
+                   (cap - 1, 1, "first", "forked", False, False), (cap, 0, "last", "forked", False, True),
+                   (cap - 1, 1, "middle", "inproc", True, False), (cap, 1, "middle", "inproc", True, True),
+                   (cap - 2, 0, "middle", "inproc", False, False)]
     else:
-        combos = [(k, res, pos, mode) for k in ks for res in (1, 0) for pos in ("first", "middle", "last")
-                  for mode in ("forked", "inproc")]
+        combos = [(k, res, pos, mode, ap, nested) for k in ks for res in (1, 0) for pos in ("first", "middle", "last")
+                  for mode in ("forked", "inproc") for ap in (True, False) for nested in (True, False)]
     cases, meta = [], []
-    for k, res, pos, mode in combos:
+    for k, res, pos, mode, allpass, nested in combos:
         big = L.Test(1, body=[("c", res)] * k)
-        before = L.Test(0, body=[("c", 1), ("c", 1), ("c", 0)])
+        before = L.Test(0, body=[("c", 1), ("c", 1), ("c", 1 if allpass else 0)])
         after = L.Test(2, body=[("c", 1)] * 5)
         order = {"first": [big, before, after], "middle": [before, big, after], "last": [before, after, big]}[pos]
-        if chk.rng.random() < 0.5:
+        if nested:
             root = L.Suite(0, children=[L.Suite(1, children=order)])
         else:
             root = L.Suite(0, children=order)
         cases.append((root, "text", mode))
-        meta.append((k, res, pos))
+        meta.append((k, res, pos, allpass))
     lines = [L.model_case(r, rep, m, cap) for r, rep, m in cases]
     mrs = [L.ModelResult(l) for l in vlib.run_model("runner", lines)]
     with ThreadPoolExecutor(vlib.NPROC) as ex:
         runs = list(ex.map(lambda c: L.run_impl(drv, c[0], c[1], c[2], timeout=120), cases))
-    for (root, rep, mode), (k, res, pos), run, mr in zip(cases, meta, runs, mrs):
+    for (root, rep, mode), (k, res, pos, allpass), run, mr in zip(cases, meta, runs, mrs):
         account(chk, root, rep, mode)
         chk.count("checks:%s" % ("cap%+d" % (k - cap) if abs(k - cap) <= 2 else str(k)))
         overflow = k + 1 > cap
@@ -779,10 +798,13 @@ def check_C18(chk):
                 chk.violation("miscounted", "%d checks executed but %s counted" % (k, big[:2]), rp())
             if not overflow:
                 chk.violation("spurious-exception", "%d checks (+ marker) fit the channel of %d records but the test is an exception" % (k, cap), rp())
-        if td.get("t0") not in (None, (2, 1, 0, 0)) or td.get("t2") not in (None, (5, 0, 0, 0)):
-            chk.violation("misplaced", "neighbours credited %s / %s instead of (2,1,0,0) / (5,0,0,0)" % (td.get("t0"), td.get("t2")), rp())
+        exp0 = (3, 0, 0, 0) if allpass else (2, 1, 0, 0)
+        if td.get("t0") not in (None, exp0) or td.get("t2") not in (None, (5, 0, 0, 0)):
+            chk.violation("misplaced", "neighbours credited %s / %s instead of %s / (5,0,0,0)" % (td.get("t0"), td.get("t2"), exp0), rp())
         if "t0" not in td or "t2" not in td:
             chk.violation("neighbour-missing", "a neighbour of the big test was not reported", rp())
-        if (run.exit != 0) != True:     # t0 always has a failure
-            chk.violation("verdict", "a check failed but the verdict is success", rp())
+        bad = (not allpass) or big[1] > 0 or big[3] > 0 or (not res and k > 0)
+        if (run.exit != 0) != bad:
+            chk.violation("verdict", "verdict %s but %s" % ("failure" if run.exit else "success",
+                          "a check failed or the test is an exception" if bad else "nothing failed"), rp())
     return chk.finish()
